@@ -196,6 +196,38 @@ func suiteC09(s *Suite, rng *Rng, tier string) {
 				shared[[2]int{a, b}] = h.window(a, b)
 			}
 		}
+		// event lists downloaded in chunks and flattened (for every split point, twice): the product handed on is the product
+		// of the revoked values, and flattening leaves the chunks as they were
+		for a := 1; a+1 <= last; a++ {
+			for mid := a; mid < last; mid++ {
+				read := func(from, to int) *revocation.EventList {
+					js, _ := json.Marshal(revocation.NewEventList(append([]*revocation.Event{}, h.events[from:to+1]...)...))
+					l := &revocation.EventList{ComputeProduct: true}
+					if err := json.Unmarshal(js, l); err != nil {
+						panic(err)
+					}
+					return l
+				}
+				chunks := []*revocation.EventList{read(a, mid), read(mid+1, last)}
+				want := bi(1)
+				for _, ev := range h.events[a : last+1] {
+					want.Mul(want, ev.E)
+				}
+				for rep := 0; rep < 2; rep++ {
+					fl, err := revocation.FlattenEventLists(chunks)
+					if err != nil {
+						s.Violate("C09:flatten-failed", err.Error(), L{a, mid, last})
+						break
+					}
+					_, _, prod := fl.VerifFlags()
+					if prod == nil || prod.Cmp(want) != 0 || len(fl.Events) != last-a+1 {
+						s.Violate("C09:flattened-product-wrong", fmt.Sprintf("FlattenEventLists (call %d on the same chunks [%d,%d],[%d,%d]) hands on a product that is not the product of the revoked values", rep+1, a, mid, mid+1, last), L{a, mid, last, rep})
+						break
+					}
+				}
+				s.Dist["flatten-splits"]++
+			}
+		}
 		// operation sequences
 		for sq := 0; sq < nSeq; sq++ {
 			wt := wits[rng.Intn(len(wits))]
@@ -220,10 +252,29 @@ func suiteC09(s *Suite, rng *Rng, tier string) {
 					if d < a {
 						d = a
 					}
-					js, _ := json.Marshal(revocation.NewEventList(append([]*revocation.Event{}, h.events[a:d+1]...)...))
-					el := &revocation.EventList{ComputeProduct: true}
-					if err := json.Unmarshal(js, el); err != nil {
-						panic(err)
+					readList := func(from, to int) *revocation.EventList {
+						js, _ := json.Marshal(revocation.NewEventList(append([]*revocation.Event{}, h.events[from:to+1]...)...))
+						l := &revocation.EventList{ComputeProduct: true}
+						if err := json.Unmarshal(js, l); err != nil {
+							panic(err)
+						}
+						return l
+					}
+					el := readList(a, d)
+					if d > a && rng.Bool() {
+						// downloaded in two chunks and flattened; the chunks are kept and flattened again for the next witness
+						// (or a retry): the second result is the one used
+						mid := a + rng.Intn(d-a)
+						chunks := []*revocation.EventList{readList(a, mid), readList(mid+1, d)}
+						if _, err := revocation.FlattenEventLists(chunks); err != nil {
+							panic(err)
+						}
+						fl, err := revocation.FlattenEventLists(chunks)
+						if err != nil {
+							panic(err)
+						}
+						el = fl
+						s.Dist["event-chunks-flattened-twice"]++
 					}
 					u = h.window(c, b)
 					if _, err := u.Verify(kp.Pk); err != nil {
